@@ -200,14 +200,14 @@ COMMON_ASSUME = ["Kani/CBMC/CaDiCaL verdicts", "the KFS model (harness/kfs.rs): 
 RELY = "rely/guarantee: between any two calls of the operation the shared directories move to any state other participants' protocol steps can produce"
 
 prop("C01", ["stack_gou_glue", "proto_glue", "plain_get_env", "raw_insert_or_update_basic", "raw_insert_or_touch_basic", "raw_ops_sanity_twin"],
-     ["sharded_get_01", "stack_get_w1r1_nock", "stack_set_temp_w1r1", "plain_set_seq", "plain_put_seq"],
+     ["sharded_get_01", "stack_get_w1r1_nock", "plain_set_seq", "plain_put_seq"],
      outside=["byte-granular reads (values are abstracted to content ids; 'complete' is set only by the last write)", "NFS close-to-open semantics", "peers that violate the protocol"], assumptions=COMMON_ASSUME + [RELY])
 prop("C02", ["c02_cleanup_temp_debris", "proto_glue", "raw_insert_or_update_basic", "raw_insert_or_touch_basic", "c02_cleanup_temp_by_age", "c02_cleanup_temp_missing_dir", "raw_apply_update_evict_a_moveback_b", "raw_ops_sanity_twin"],
-     ["plain_set_seq", "plain_put_seq", "plain_set_fault", "sharded_set_absent", "stackc_set_w1r1_cp", "stackc_set_temp_w1r1_cp", "stack_set_temp_w1r1"],
+     ["plain_set_seq", "plain_put_seq", "plain_set_fault", "sharded_set_absent", "stackc_set_w1r1_cp", "stackc_set_temp_w1r1_cp"],
      outside=["power-loss reordering of un-fsynced directory updates (documented: directories are not fsynced)", "validity is asserted at every call boundary of KFS, i.e. at every point where the process can die between two system calls"],
      assumptions=COMMON_ASSUME)
 prop("C03", ["stack_gou_glue", "stack_ops_glue", "stack_finalize_glue", "raw_insert_or_update_basic", "raw_insert_or_touch_basic", "stack_ops_sanity_twin"],
-     ["stackc_set_temp_w1r1_fault", "stackc_set_temp_w1r1", "stackc_put_temp_w1r1", "stackc_put_temp_w1r1_fault", "stackc_set_w1r1", "stackc_set_w1r1_fault", "stackc_put_w1r1", "stack_set_temp_w1r1", "stack_set_w1r1"],
+     ["stackc_set_temp_w1r1_fault", "stackc_set_temp_w1r1", "stackc_put_temp_w1r1", "stackc_put_temp_w1r1_fault", "stackc_set_w1r1", "stackc_set_w1r1_fault", "stackc_put_w1r1", "stack_set_w1r1"],
      outside=["whether the kernel's fsync is durable", "value sizes (content ids)"], assumptions=COMMON_ASSUME)
 prop("C04", ["stack_gou_glue", "proto_glue", "plain_get_env", "plain_touch_env", "raw_insert_or_touch_basic", "raw_touch_basic", "raw_ops_sanity_twin"],
      ["plain_put_seq", "stackc_put_w1r1"],
@@ -242,7 +242,7 @@ prop("C12", ["proto_glue", "c12_mapping", "c12_constants", "c12_new_clamps", "sh
      outside=["directory names for shard indices >= 2^20", "probe order is checked with the two candidate ids fixed to (0,1) and (1,0)"],
      assumptions=COMMON_ASSUME + ["z3 and cvc5 agree (both consulted on every obligation)"])
 prop("C13", ["readonly_glue", "stack_gou_glue", "stack_ops_glue", "stack_get_w1r1_nock", "stack_touch_w1r2", "stack_set_w0r1", "stack_ops_sanity_twin"],
-     ["stackc_set_w1r1", "stackc_touch_w1r2", "stackc_put_w1r1", "stackc_set_temp_w1r1", "stackc_put_temp_w1r1", "stack_set_w1r1", "stack_set_temp_w1r1", "stack_put_temp_w0r1", "stack_get_w0r2_bytes", "stack_get_w1r0_nock", "stack_get_w0r1_nock", "readonly_builder_equiv"],
+     ["stackc_set_w1r1", "stackc_touch_w1r2", "stackc_put_w1r1", "stackc_set_temp_w1r1", "stackc_put_temp_w1r1", "stack_set_w1r1", "stack_put_temp_w0r1", "stack_get_w0r2_bytes", "stack_get_w1r0_nock", "stack_get_w0r1_nock", "readonly_builder_equiv"],
      outside=["stack shapes other than those listed (writer in {none, plain, sharded} x up to two plain readers)"], assumptions=COMMON_ASSUME)
 prop("C14", ["builder_glue", "readonly_glue", "stack_gou_glue", "stack_ops_glue", "stack_get_w1r1_nock", "stack_ops_sanity_twin"],
      ["stack_get_w0r2_bytes", "readonly_builder_equiv"],
@@ -260,7 +260,7 @@ prop("C18", ["stack_gou_glue", "proto_glue", "stack_ops_glue", "stack_finalize_g
      outside=["more than one failing call per operation", "failures inside the caller's populate function other than its own error return", "re-issuing the operation after the fault is covered by the fault-free harnesses starting from arbitrary valid states (C02)"],
      assumptions=COMMON_ASSUME)
 prop("C19", ["readonly_glue", "stack_gou_glue", "proto_glue", "stack_ops_glue", "stack_finalize_glue", "plain_get_seq", "stack_get_w1r0_nock", "raw_insert_or_update_basic", "stack_ops_sanity_twin"],
-     ["stack_get_w1r1_nock", "stackc_set_temp_w1r1", "stackc_put_temp_w1r1", "stack_set_temp_w1r1", "plain_set_seq", "sharded_get_01"],
+     ["stack_get_w1r1_nock", "stackc_set_temp_w1r1", "stackc_put_temp_w1r1", "plain_set_seq", "sharded_get_01"],
      outside=["the no-writer miss path returns the throw-away temp file itself (read-write by construction): only its offset is checked"],
      assumptions=COMMON_ASSUME + ["the process umask only influences the initial mode of caller-supplied files, which is symbolic"])
 prop("C20", ["proto_glue", "plain_get_seq", "plain_touch_seq", "stack_get_w1r0_nock", "plain_ops_sanity_twin"],
